@@ -58,6 +58,10 @@ fn alphabet() -> Alphabet {
         il::Operation::branch(E::zext(64, ey()).unwrap()),
         il::Operation::intrinsic(il::Intrinsic::new("rdx", "rdx", vec![], Some(vec![ex()]), Some(vec![ey()]), vec![0x90])),
         il::Operation::intrinsic(il::Intrinsic::new("unk", "unk", vec![], None, None, vec![0x90])),
+        // a declared write through a compound expression (part of a register) still clobbers the register, and a
+        // placeholder no-op assigns nothing
+        il::Operation::intrinsic(il::Intrinsic::new("wlo", "wlo", vec![], Some(vec![E::trun(4, ex()).unwrap()]), Some(vec![]), vec![0x92])),
+        il::Operation::placeholder(il::Operation::assign(x(), c(1))),
     ];
     let guards = vec![(E::cmpeq(ex(), c(0)).unwrap(), E::cmpneq(ex(), c(0)).unwrap())];
     Alphabet { ops, guards, guards3: vec![] }
